@@ -2,7 +2,7 @@
 import os
 import re
 
-from lib import facts, mir
+from lib import facts, mir, synq
 from .rtcommon import discr_switches, variant_target, is_true_edge, is_false_edge, bool_switches_on_call
 
 CLAIM = dict(
@@ -212,3 +212,65 @@ def run(rep, tier):
         rep.ob("R2.6", "the core signature is computed once, before the direction dispatch, from the variant parameter",
                len(ws) == 1 and f.dominates(ws[0].bb, sw) and f.origin(ws[0].args[1]).get("n") == a_variant, "", f.loc())
     rep.guard("R2.6", "exit assertions", r6)
+
+
+    # ---- R2.7 the flat buffer's capacity is exactly the limit (flat_types)
+    def r7():
+        f = synq.find_fn("crates/core/src/abi.rs", "flat_types")
+        rep.saw("crates/core/src/abi.rs::flat_types")
+        render = synq.render
+        # the limit: `let L = <param>.unwrap_or(MAX_FLAT_PARAMS)`
+        lim = [(nm, init) for nm, init, st in synq.bindings(f.body) if init is not None and init.get("k") == "mcall"
+               and init["method"] == "unwrap_or" and render(init["args"][0]).endswith("MAX_FLAT_PARAMS")]
+        rep.ob("R2.7", "flat_types: the limit defaults to MAX_FLAT_PARAMS", len(lim) == 1 and
+               render(lim[0][1]["recv"]) in [p for p in f.params if p], f"{[render(i) for _, i in lim]}", f.loc())
+        if len(lim) != 1:
+            return
+        L = lim[0][0]
+        news = [c for c in synq.fn_calls(f.body, "new") if render(c["func"]).endswith("FlatTypes::new")]
+        rep.ob("R2.7", "flat_types: one FlatTypes::new", len(news) == 1, f"{len(news)}", f.loc())
+        if len(news) != 1:
+            return
+
+        def cap(e, depth=0):
+            """symbolic capacity (rendered expression) of the slice expression e; None if not understood"""
+            if depth > 6:
+                return None
+            k = e.get("k")
+            if k == "ref":
+                return cap(e["e"], depth + 1)
+            if k == "mcall" and e["method"] in ("as_mut_slice", "as_mut", "as_slice", "deref_mut"):
+                return cap(e["recv"], depth + 1)
+            if k == "index" and e["index"].get("k") == "range":
+                r = e["index"]
+                if r.get("start") is not None and render(r["start"]) != "0":
+                    return None
+                if r.get("end") is None:
+                    return cap(e["base"], depth + 1)
+                end = render(r["end"])
+                return end if r.get("limits") == ".." else f"({end} + 1)"
+            if k == "path":
+                for nm, init, st in synq.bindings(f.body):
+                    if nm == e["path"] and init is not None:
+                        return cap(init, depth + 1)
+                return None
+            if k == "mcall" and e["method"] == "collect":
+                return cap(e["recv"], depth + 1)
+            if k == "call" and render(e["func"]).endswith("repeat_n") and len(e["args"]) == 2:
+                return render(e["args"][1])
+            if k == "mcall" and e["method"] == "take" and len(e["args"]) == 1:
+                return render(e["args"][0])
+            if k == "macro" and synq.short(e["name"]) == "vec" and e.get("tokens"):
+                m = re.match(r".*;\s*(.+)$", e["tokens"])
+                return m.group(1).strip() if m else None
+            if k == "repeat":
+                return render(e["len"])
+            return None
+        c_ = cap(news[0]["args"][0])
+        rep.ob("R2.7", "flat_types: the flat buffer holds exactly `limit` values (one more would be passed flat)",
+               c_ == L, f"capacity expression is `{c_}`, the limit is `{L}`", f.loc(news[0]))
+        pf = synq.method_calls(f.body, "push_flat")
+        rep.ob("R2.7", "flat_types: None is returned exactly when push_flat overflows that buffer",
+               len(pf) == 1 and any(m["method"] == "then_some" and any(x is pf[0] for x in synq.walk(m["recv"]))
+                                    for m in synq.method_calls(f.body, "then_some")), "", f.loc())
+    rep.guard("R2.7", "flat buffer capacity", r7)
